@@ -828,7 +828,14 @@ impl Prop for ReaderProp {
                 match op {
                     ROp::RequestMore => {
                         let expect = if complete_before { 0 } else { 1 };
-                        if real.len() != expect || (complete_before && !calls.is_empty()) {
+                        // from_buf_reader: the first refills are served by std's Cursor over the
+                        // BufReader's leftover bytes and never reach the source
+                        let count_ok = if m.strict {
+                            real.len() == expect
+                        } else {
+                            real.len() <= expect
+                        };
+                        if !count_ok || (complete_before && !calls.is_empty()) {
                             res_violation = viol(
                                 "C09.refill_reads",
                                 "request_more() must perform exactly one non-Interrupted read (none once complete)".into(),
